@@ -127,6 +127,29 @@ Definition classify_pair (flat : list opinfo) (same_iter : bool) (a b : Z) : Z :
   | _, _ => 1
   end.
 
+(* a dealloc d is guaranteed a barrier by the dealloc clause when some op before it shares an SSA
+   value with it and no barrier (existing, or inserted: [bars] = ids of the ops the real pass put
+   a barrier before) lies between that op and d in walk order: nothing cleared the pending list.
+   A race with such a dealloc is not excused by any class. *)
+Fixpoint prefix_before (d : Z) (l : list opinfo) : list opinfo :=
+  match l with
+  | [] => []
+  | y :: r => if oi_id y =? d then [] else y :: prefix_before d r
+  end.
+Definition dealloc_guaranteed (flat : list opinfo) (bars : list Z) (d : opinfo) : bool :=
+  is_dealloc d && negb (memb (oi_id d) bars) &&
+  existsb (fun s => shares s d &&
+                    negb (existsb (fun y => is_sync y || memb (oi_id y) bars) (between (oi_id s) (oi_id d) flat)))
+          (prefix_before (oi_id d) flat).
+
+Definition classify_pair2 (flat : list opinfo) (bars : list Z) (same_iter : bool) (a b : Z) : Z :=
+  match find_op a flat, find_op b flat with
+  | Some x, Some u =>
+      if (dealloc_guaranteed flat bars x || dealloc_guaranteed flat bars u) && same_iter then 0
+      else classify_pair flat same_iter a b
+  | _, _ => classify_pair flat same_iter a b
+  end.
+
 (* ---- executable tree semantics for the race detector (L2) ------------------------------------ *)
 Inductive rstmt :=
 | RLeaf (id : Z) (core : Z) (bar : bool) (reads writes : list Z)   (* core -1: executed by all cores *)
